@@ -141,7 +141,8 @@ T_STATES = ["aa:aa;10.0.0.1;alpha\nbb:bb;10.0.0.2;beta\n",
 # overlaps a change of several files may legitimately see some of them old and some new (there is
 # no snapshot across files), the property is about a file being seen in one state per call
 Y_STATES = [
-    {"top.yaml": "'*':\n  - common\n'alpha':\n  - a\n", "common.yaml": "k: 1\ninclude:\n  - shared\nm: 1\n",
+    {"top.yaml": "'*':\n  - common\n'alpha':\n  - a\n",
+     "common.yaml": "k: 1\nwho: {{ id }}\ninclude:\n  - shared\nm: 1\n",
      "a.yaml": "include:\n  - shared\nz: 1\n", "shared.yaml": "x: 1\n"},
     {"shared.yaml": "y: 2\n"},
     {"a.yaml": "include:\n  - shared\nq: 5\n"},
@@ -158,6 +159,9 @@ def core_scenarios():
                 "threads": [[["set", 1, 10], ["getd", 1]], [["set", 2, 20]], [["getd", 1], ["getd", 2]]]})
     out.append({"comp": "store", "cfg": {"initial": [["a", "k", 1]]},
                 "threads": [[["set", "a", "k", 2], ["get", "a", "k"]], [["del_all", "a"], ["data", "a"]]]})
+    # a read of several rows overlapping a write of the same rows (execute ... fetchall is one critical section)
+    out.append({"comp": "store", "cfg": {"initial": [["a", "j", 1], ["a", "k", 2], ["a", "m", 3], ["b", "k", 2]]},
+                "threads": [[["data", "a"]], [["del_all", "a"]], [["find", "k", 2]]]})
     # readers overlapping a rewrite: a reader, the writer, another reader (reload) - in every order
     out.append({"comp": "textfile", "cfg": {"states": T_STATES, "conf": {}},
                 "threads": [[["get", "alpha"]], [["write", 1]], [["get", "alpha"]]]})
@@ -210,7 +214,7 @@ def gen(rng, tier, mult=1):
         # baseline orders without pre-emption
         for order in itertools.permutations(range(n)):
             yield dict(sc, order=list(order), preempt=[], _meta={"style": "order"})
-        if tier == "thorough" or sc["comp"] in ("lru", "textfile", "yaml"):
+        if tier == "thorough" or sc["comp"] in ("lru", "textfile", "yaml") or sc in core_scenarios():
             m = 4 if sc["comp"] == "yaml" else 3
             # a single pre-emption at every traced line, to every thread, for every start order (after the
             # pre-empting thread has finished the scheduler continues round-robin, so the order decides who
